@@ -81,6 +81,14 @@ func (r *run) storeTo(addr value, v value) {
 				r.traceEvent("wr:" + loc)
 			}
 		}
+		if loc, ok := r.watch[p]; ok {
+			// a map stored into a watched location is watched under its name
+			if m, isMap := v.(*smap); isMap && m != nil {
+				if _, named := r.watchMap[m]; !named {
+					r.watchMap[m] = loc
+				}
+			}
+		}
 		store(p, v)
 		return
 	case *symptr:
